@@ -60,8 +60,8 @@ structure IEnv where
   hash : HashKind → Bytes → Bytes
   lockTime : Nat
   sequence : Nat
-  /-- version of the spending transaction.  NOT consulted by the unchanged interpreter
-  (`from_txdata` never receives it): see `C13.interp_unsound_csv_tx_version_1` -/
+  /-- version of the spending transaction.  NOT consulted by the interpreter (`from_txdata`
+  never receives it): see `C13.interp_unsound_csv_tx_version_1` -/
   txVersion : Nat := 2
 
 abbrev R := Except IErr (AStack × List Constraint)
@@ -88,9 +88,13 @@ def evaluatePkh (e : IEnv) (h : Bytes) : AStack → R
     else evalSig e pk (.pkh h pk) st
   | _ => .error .unexpectedStackEnd
 
-/-- `Stack::evaluate_after` -/
+def SEQ_FINAL : Nat := 4294967295
+
+/-- the `Terminal::After` arm of `iter_next` (BIP65 check on the input's nSequence) followed by
+`Stack::evaluate_after` -/
 def evaluateAfter (e : IEnv) (n : Nat) (st : AStack) : R :=
-  if (n < LOCKTIME_THRESHOLD && e.lockTime < LOCKTIME_THRESHOLD)
+  if e.sequence == SEQ_FINAL then .error .absoluteLockTimeNotMet
+  else if (n < LOCKTIME_THRESHOLD && e.lockTime < LOCKTIME_THRESHOLD)
       || (n ≥ LOCKTIME_THRESHOLD && e.lockTime ≥ LOCKTIME_THRESHOLD) then
     if n ≤ e.lockTime then .ok (.sat :: st, [.after n]) else .error .absoluteLockTimeNotMet
   else .error .absoluteLockTimeComparisonInvalid
@@ -324,13 +328,14 @@ def interpKey (e : IEnv) (pk : Bytes) : AStack → Except IErr (List Constraint)
 
 /-! ### byte-level acceptance at the boundary (`verify_sersig`, `inner::script_from_stack_elem`) -/
 
-/-- which byte strings `bitcoin::taproot::Signature::from_slice` (rust-bitcoin 0.32, used by
-`verify_sersig`) accepts: 64 bytes, or 65 bytes whose last byte is one of
-`TapSighashType::from_consensus_u8`'s values — which include 0x00 (`Default`) -/
+/-- which byte strings `verify_sersig` lets through to Schnorr verification: its own BIP341 check
+(no 65-byte signature with sighash byte 0x00) followed by `bitcoin::taproot::Signature::from_slice`
+(64 bytes, or 65 bytes whose last byte is one of `TapSighashType::from_consensus_u8`'s values) -/
 def schnorrSigParses (sig : Bytes) : Bool :=
-  sig.length == 64 || (sig.length == 65 && [0x00, 0x01, 0x02, 0x03, 0x81, 0x82, 0x83].contains (sig.getLast?.getD 0))
+  !(sig.length == 65 && sig.getLast? == some 0) &&
+  (sig.length == 64 || (sig.length == 65 && [0x00, 0x01, 0x02, 0x03, 0x81, 0x82, 0x83].contains (sig.getLast?.getD 0)))
 
-/-- BIP341: a 65-byte signature must not name hash type 0x00 -/
+/-- BIP341: 64 bytes, or 65 bytes naming a hash type other than 0x00 -/
 def bip341SigShape (sig : Bytes) : Bool :=
   sig.length == 64 || (sig.length == 65 && [0x01, 0x02, 0x03, 0x81, 0x82, 0x83].contains (sig.getLast?.getD 0))
 
@@ -342,11 +347,10 @@ def Elem.bytes : Elem → Bytes
 
 /-- `inner::script_from_stack_elem` followed by `encode()`: the script bytes whose hash
 `from_txdata` compares with the scriptPubKey.  For `Push` this is decode-then-encode of the
-bytes (identity on canonical scripts); `Satisfied` / `Dissatisfied` are mapped to the miniscripts
-`1` / `0`, i.e. to the scripts `OP_1` / `OP_0` -/
-def committedScriptBytes : Elem → Bytes
-  | .sat => [0x51]
-  | .dissat => [0x00]
-  | .push b => b
+bytes (identity on canonical scripts); `Satisfied` / `Dissatisfied` (`[01]`, `[]`) are refused -/
+def committedScriptBytes : Elem → Option Bytes
+  | .sat => none
+  | .dissat => none
+  | .push b => some b
 
 end MsVerif.Interp
